@@ -82,9 +82,9 @@ func registeredPlugins(repo string, dirs ...string) ([]string, error) {
 	return out, nil
 }
 
-// parsingCallbacks returns (directive, function name) of every
+// registeredParsingCallbacks returns (directive, function name) of every
 // casket.RegisterParsingCallback(serverType, "<directive>", <func>) call below the directories.
-func parsingCallbacks(repo string, dirs ...string) ([][2]string, error) {
+func registeredParsingCallbacks(repo string, dirs ...string) ([][2]string, error) {
 	var out [][2]string
 	for _, d := range dirs {
 		root := filepath.Join(repo, d)
@@ -137,7 +137,7 @@ func parsingCallbacks(repo string, dirs ...string) ([][2]string, error) {
 
 func init() {
 	register("C09", func(repo string, o *Out) error {
-		cbs, err := parsingCallbacks(repo, "caskethttp", "caskettls", "onevent")
+		cbs, err := registeredParsingCallbacks(repo, "caskethttp", "caskettls", "onevent")
 		if err != nil {
 			return err
 		}
@@ -146,7 +146,7 @@ func init() {
 		for _, c := range cbs {
 			ps = append(ps, "("+LeanString(c[0])+", "+LeanString(c[1])+")")
 		}
-		fmt.Fprintf(cb, "/-- `casket.RegisterParsingCallback(serverType, directive, function)` call sites: the function runs\nright after the setups of that directive -/\ndef parsingCallbacks : List (String × String) := [%s]\n\n", strings.Join(ps, ", "))
+		fmt.Fprintf(cb, "/-- `casket.RegisterParsingCallback(serverType, directive, function)` call sites: the function runs\nright after the setups of that directive -/\ndef registeredParsingCallbacks : List (String × String) := [%s]\n\n", strings.Join(ps, ", "))
 		return nil
 	})
 	register("C09", func(repo string, o *Out) error {
